@@ -21,16 +21,26 @@
 //   hashmut <value1> <value2>     Header: build value1, Hash(), overwrite the fields with
 //                                 value2, Hash() again
 //   schema <Type>                 the harness's schema of the type, expanded
+//   xhdr <PrimHeader value>       what the network sends for the header (scale.Marshal of the equal
+//                                 dot/types.Header) decoded into generic.Header (internal/primitives)
+//   xjust <PrimJustification value>   the justification as the network sends it (round, commit, the
+//                                 ancestry headers as dot/types.Header encodings) decoded with the
+//                                 client's DecodeJustification
 //   babepre <value>               BABE pre-digest: <variant>.ToPreRuntimeDigest() and
 //                                 types.DecodeBabePreDigest of its Data
 //   breq <rd> <h:hex|n:num> <dir> <none|max>         BlockRequestMessage Encode / Decode
 //   breqp <rd> <h:hex|n:num> <dir> <none|max> <perm> BlockRequestMessage Encode, the fields of the
 //                                 encoding re-ordered (permutation number <perm>), Decode
-//   breqraw <k:v<hex num>|k:b<hex bytes>|x:<hex>>,... a BlockRequest written field by field (protowire;
+//   breqraw <k:v<hex num>|k:b<hex bytes>|k:q<8 bytes>|k:f<4 bytes>|x:<hex>>,... a BlockRequest written
+//                                 field by field (protowire; q = 64-bit, f = 32-bit wire type;
 //                                 x:<hex> = raw bytes: truncated fields, invalid tags),
 //                                 BlockRequestMessage.Decode: foreign field orders, repeated fields, unknown
 //                                 fields, number / hash members of other lengths, missing from-block
 //   bresp <blockdata>,...|-                          BlockResponseMessage Encode / Decode, see c14RunResp
+//   brespp <blockdata>,... <seed>                    BlockResponseMessage Encode, then the encoding rewritten as
+//                                 another implementation might write it (block data fields re-ordered with
+//                                 the body items kept in order, unknown fields of every wire type inserted
+//                                 at both levels, known numbers with another wire type), Decode
 // observables:
 //   val     -> <encoding> <decoded value | err | panic> [<hashes>]
 //              | err:build:<why> (the Go type cannot hold the value)
@@ -40,11 +50,14 @@
 //   dec     -> <decoded value> | err
 //   hashmut -> <hash before> <hash after> <encoding after>
 //   schema  -> <schema>
+//   xhdr    -> <bytes> <decoded value | err | panic> [<Hash() of the decoded generic header>]
+//   xjust   -> <bytes> <decoded value | err | panic>
 //   babepre -> <ConsensusEngineID> <Data> <value decoded from Data | err>
 //   breq    -> <encoding> <rd> <h:hex|n:num> <dir> <none|max> | <encoding> err
 //   breqp   -> <re-ordered encoding> <rd> <h:hex|n:num> <dir> <none|max> | <re-ordered encoding> err
 //   breqraw -> <bytes> <rd> <h:hex|n:num> <dir> <none|max> | <bytes> err
 //   bresp   -> <encoding> <decoded block data list | err>
+//   brespp  -> <rewritten encoding> <decoded block data list | err>
 package grandpa
 
 import (
@@ -123,6 +136,10 @@ var c14Schemas = map[string]string{
 		"6=PreRuntime:@PrimEnginePayload|8=RuntimeEnvironmentUpdated:{}]",
 	"PrimHeader":        "{ParentHash:f32,Number:c,StateRoot:f32,ExtrinsicsRoot:f32,Digest:v<@PrimDigestItem>}",
 	"PrimJustification": "{Round:u8,Commit:@PrimCommit,VoteAncestries:v<@PrimHeader>}",
+	// finality-grandpa's compact commit and catch-up (Substrate's wire forms)
+	"PrimCompactCommit": "{TargetHash:f32,TargetNumber:u4,Precommits:v<@PrimPrecommit>,AuthData:v<{Signature:f64,ID:f32}>}",
+	"PrimCatchUp": "{RoundNumber:u8,Prevotes:v<{Prevote:@PrimPrecommit,Signature:f64,ID:f32}>," +
+		"Precommits:v<{Precommit:@PrimPrecommit,Signature:f64,ID:f32}>,BaseHash:f32,BaseNumber:u4}",
 }
 
 // the types that are cases of the harness (the others above are only referenced)
@@ -130,7 +147,7 @@ var c14Types = []string{"Header", "Digest", "Body", "BabeDigest", "BabeConsensus
 	"GrandpaConsensusDigest", "GrandpaVote", "GrandpaSignedVote", "Commit", "Justification",
 	"GrandpaVoters", "GrandpaEquivocationProof", "FullVote", "GrandpaMessage", "AuthorityList",
 	"PrimScheduledChange", "PrimCommit", "LocalizedPayload",
-	"PrimMessage", "PrimSignedMessage", "PrimHeader", "PrimJustification"}
+	"PrimMessage", "PrimSignedMessage", "PrimHeader", "PrimJustification", "PrimCompactCommit", "PrimCatchUp"}
 
 type c14S struct {
 	kind   byte // 'u' 'c' 'f' 'b' 'v' 'o' 's' 'e'
@@ -777,6 +794,12 @@ var c14Codecs = map[string]c14Codec{
 	"AuthorityList":          c14Plain(func() any { return new(primgrandpa.AuthorityList) }),
 	"PrimScheduledChange":    c14Plain(func() any { return new(primgrandpa.ScheduledChange[uint32]) }),
 	"PrimCommit":             c14Plain(func() any { return new(primgrandpa.Commit[hash.H256, uint32]) }),
+	"PrimCompactCommit": c14Plain(func() any {
+		return new(finality.CompactCommit[hash.H256, uint32, primgrandpa.AuthoritySignature, primgrandpa.AuthorityID])
+	}),
+	"PrimCatchUp": c14Plain(func() any {
+		return new(finality.CatchUp[hash.H256, uint32, primgrandpa.AuthoritySignature, primgrandpa.AuthorityID])
+	}),
 	// Body: scale.Marshal of the body; decoded with NewBodyFromBytes, as the block state does
 	"Body": {
 		run: func(s *c14S, v *c14V) ([]byte, any, error) {
@@ -1263,6 +1286,102 @@ func c14SafeDec(codec c14Codec, s *c14S, b []byte) (res string) {
 	return d.String()
 }
 
+// c14AsTypesHeader encodes the header given as a PrimHeader value through dot/types.Header (whose
+// encoding is checked against the reference on every Header case): field Bytes is field Data there.
+func c14AsTypesHeader(v *c14V) ([]byte, error) {
+	var ren func(x *c14V) *c14V
+	ren = func(x *c14V) *c14V {
+		y := &c14V{kind: x.kind, num: x.num, bytes: x.bytes, idx: x.idx}
+		for _, n := range x.names {
+			if n == "Bytes" {
+				n = "Data"
+			}
+			y.names = append(y.names, n)
+		}
+		for _, e := range x.list {
+			y.list = append(y.list, ren(e))
+		}
+		return y
+	}
+	h := types.NewEmptyHeader()
+	if err := c14Build(c14SchemaOf("Header"), ren(v), reflect.ValueOf(h).Elem()); err != nil {
+		return nil, err
+	}
+	return scale.Marshal(*h)
+}
+
+func c14RunXHdr(vs string) string {
+	s := c14SchemaOf("PrimHeader")
+	enc, err := c14AsTypesHeader(c14ParseValue(vs))
+	if err != nil {
+		return "err:build:" + strings.ReplaceAll(err.Error(), " ", "_")
+	}
+	out := vu.Hex(enc)
+	func() {
+		defer func() {
+			if p := recover(); p != nil {
+				out += " panic"
+			}
+		}()
+		var h generic.Header[uint32, hash.H256, primruntime.BlakeTwo256]
+		if err := scale.Unmarshal(enc, &h); err != nil {
+			out += " err"
+			return
+		}
+		d, err := c14ReadPrimHeader(s, &h)
+		if err != nil {
+			out += " err:read"
+			return
+		}
+		out += " " + d.String() + " " + vu.Hex(h.Hash().Bytes())
+	}()
+	return out
+}
+
+func c14RunXJust(vs string) string {
+	s := c14SchemaOf("PrimJustification")
+	v := c14ParseValue(vs)
+	var enc []byte
+	for i, n := range v.names {
+		k, ok := s.field(n)
+		if !ok {
+			return "err:field"
+		}
+		switch n {
+		case "Round":
+			b, err := scale.Marshal(v.list[i].num)
+			if err != nil {
+				return "err:marshal"
+			}
+			enc = append(enc, b...)
+		case "Commit":
+			c := new(primgrandpa.Commit[hash.H256, uint32])
+			if err := c14Build(s.parts[k], v.list[i], reflect.ValueOf(c).Elem()); err != nil {
+				return "err:build:" + strings.ReplaceAll(err.Error(), " ", "_")
+			}
+			b, err := scale.Marshal(*c)
+			if err != nil {
+				return "err:marshal"
+			}
+			enc = append(enc, b...)
+		case "VoteAncestries":
+			b, err := scale.Marshal(uint(len(v.list[i].list))) // uint: compact
+			if err != nil {
+				return "err:marshal"
+			}
+			enc = append(enc, b...)
+			for _, hv := range v.list[i].list {
+				hb, err := c14AsTypesHeader(hv)
+				if err != nil {
+					return "err:build:" + strings.ReplaceAll(err.Error(), " ", "_")
+				}
+				enc = append(enc, hb...)
+			}
+		}
+	}
+	return vu.Hex(enc) + " " + c14SafeDec(c14Codecs["PrimJustification"], s, enc)
+}
+
 func c14RunDec(typ string, hx string) string {
 	s := c14SchemaOf(typ)
 	codec := c14Codecs[typ]
@@ -1373,6 +1492,12 @@ func c14RunReqRaw(spec string) string {
 			if kv[1][0] == 'v' {
 				enc = protowire.AppendTag(enc, num, protowire.VarintType)
 				enc = protowire.AppendVarint(enc, vu.UnX(kv[1][1:]))
+			} else if kv[1][0] == 'q' {
+				enc = protowire.AppendTag(enc, num, protowire.Fixed64Type)
+				enc = append(enc, vu.UnHex(kv[1][1:])...)
+			} else if kv[1][0] == 'f' {
+				enc = protowire.AppendTag(enc, num, protowire.Fixed32Type)
+				enc = append(enc, vu.UnHex(kv[1][1:])...)
 			} else {
 				enc = protowire.AppendTag(enc, num, protowire.BytesType)
 				enc = protowire.AppendBytes(enc, vu.UnHex(kv[1][1:]))
@@ -1439,7 +1564,9 @@ func c14GenReqRaw(r *vu.RNG) string {
 		add([]string{"1:v" + vu.X(uint64(r.Intn(256))<<24), "5:v1", "6:v7"}[r.Intn(3)])
 	}
 	if r.Chance(1, 4) { // unknown fields are skipped; a known number with the other wire type too
-		add([]string{"4:b" + vu.Hex(r.Bytes(r.Intn(5))), "9:v5", "63:b" + vu.Hex(r.Bytes(3)), "2:v7", "1:b00", "3:v1"}[r.Intn(6)])
+		add([]string{"4:b" + vu.Hex(r.Bytes(r.Intn(5))), "9:v5", "63:b" + vu.Hex(r.Bytes(3)), "2:v7", "1:b00", "3:v1",
+			"9:q" + vu.Hex(r.Bytes(8)), "d:f" + vu.Hex(r.Bytes(4)), "1:f" + vu.Hex(r.Bytes(4)), "3:q" + vu.Hex(r.Bytes(8)),
+			"1fffffff:v1", "5:q0100000000000000"}[r.Intn(12)])
 	}
 	for i := len(fl) - 1; i > 0; i-- {
 		j := r.Intn(i + 1)
@@ -1460,7 +1587,121 @@ const c14BlockDataSchema = "v<{Hash:f32,Header:o<@Header>,Body:o<v<b>>,Receipt:o
 
 func init() { c14Schemas["BlockDataList"] = c14BlockDataSchema }
 
-func c14RunResp(vs string) string {
+// c14Tokens splits a protobuf message into its top-level fields (tag + value bytes each).
+func c14Tokens(b []byte) ([][]byte, bool) {
+	var fields [][]byte
+	for rest := b; len(rest) > 0; {
+		_, _, n := protowire.ConsumeField(rest)
+		if n <= 0 {
+			return nil, false
+		}
+		fields = append(fields, rest[:n])
+		rest = rest[n:]
+	}
+	return fields, true
+}
+
+// c14Foreign rewrites a BlockResponse encoding the way another implementation might emit it.
+func c14Foreign(enc []byte, seed uint64) ([]byte, bool) {
+	st := seed*0x9e3779b97f4a7c15 + 1
+	next := func(n int) int {
+		st = st*6364136223846793005 + 1442695040888963407
+		return int((st >> 33) % uint64(n))
+	}
+	unknown := func() []byte {
+		var u []byte
+		switch next(7) {
+		case 0:
+			u = protowire.AppendTag(u, 9, protowire.Fixed64Type)
+			u = protowire.AppendFixed64(u, st)
+		case 1:
+			u = protowire.AppendTag(u, 13, protowire.Fixed32Type)
+			u = protowire.AppendFixed32(u, uint32(st))
+		case 2:
+			u = protowire.AppendTag(u, 15, protowire.VarintType)
+			u = protowire.AppendVarint(u, st)
+		case 3:
+			u = protowire.AppendTag(u, 12, protowire.BytesType)
+			u = protowire.AppendBytes(u, []byte("zz"))
+		case 4: // a known bytes field carried as a varint
+			u = protowire.AppendTag(u, protowire.Number(1+next(6)), protowire.VarintType)
+			u = protowire.AppendVarint(u, 7)
+		case 5: // the is_empty_justification flag carried as bytes
+			u = protowire.AppendTag(u, 7, protowire.BytesType)
+			u = protowire.AppendBytes(u, []byte{1})
+		default:
+			u = protowire.AppendTag(u, 8, protowire.Fixed32Type)
+			u = protowire.AppendFixed32(u, 1)
+		}
+		return u
+	}
+	rewrite := func(msg []byte, keepOrderOf protowire.Number) ([]byte, bool) {
+		fields, ok := c14Tokens(msg)
+		if !ok {
+			return nil, false
+		}
+		var kept [][]byte // the fields whose relative order is significant (repeated)
+		for _, f := range fields {
+			if n, _, _ := protowire.ConsumeTag(f); n == keepOrderOf {
+				kept = append(kept, f)
+			}
+		}
+		for i := len(fields) - 1; i > 0; i-- {
+			j := next(i + 1)
+			fields[i], fields[j] = fields[j], fields[i]
+		}
+		k := 0
+		for i, f := range fields {
+			if n, _, _ := protowire.ConsumeTag(f); n == keepOrderOf {
+				fields[i] = kept[k]
+				k++
+			}
+		}
+		var out []byte
+		for _, f := range fields {
+			if next(3) == 0 {
+				out = append(out, unknown()...)
+			}
+			out = append(out, f...)
+		}
+		if next(3) == 0 {
+			out = append(out, unknown()...)
+		}
+		return out, true
+	}
+	blocks, ok := c14Tokens(enc)
+	if !ok {
+		return nil, false
+	}
+	var top []byte
+	for _, b := range blocks {
+		num, typ, n := protowire.ConsumeTag(b)
+		if num != 1 || typ != protowire.BytesType {
+			return nil, false
+		}
+		inner, m := protowire.ConsumeBytes(b[n:])
+		if m <= 0 {
+			return nil, false
+		}
+		ni, ok := rewrite(inner, 3)
+		if !ok {
+			return nil, false
+		}
+		if next(3) == 0 {
+			top = append(top, unknown()...)
+		}
+		top = protowire.AppendTag(top, 1, protowire.BytesType)
+		top = protowire.AppendBytes(top, ni)
+	}
+	if next(2) == 0 {
+		top = append(top, unknown()...)
+	}
+	return top, true
+}
+
+func c14RunResp(vs string) string { return c14RunRespWith(vs, false, 0) }
+
+func c14RunRespWith(vs string, foreign bool, seed uint64) string {
 	s := c14SchemaOf("BlockDataList")
 	var bds []*types.BlockData
 	v := c14ParseValue(vs)
@@ -1478,6 +1719,12 @@ func c14RunResp(vs string) string {
 	enc, err := m.Encode()
 	if err != nil {
 		return "err:encode"
+	}
+	if foreign {
+		var ok bool
+		if enc, ok = c14Foreign(enc, seed); !ok {
+			return "err:tokenise"
+		}
 	}
 	back := new(messages.BlockResponseMessage)
 	if err := back.Decode(enc); err != nil {
@@ -1541,12 +1788,18 @@ func c14Run(in string) string {
 		return c14RunHashMut(f[1], f[2])
 	case "schema":
 		return c14SchemaOf(f[1]).String()
+	case "xhdr":
+		return c14RunXHdr(f[1])
+	case "xjust":
+		return c14RunXJust(f[1])
 	case "breq", "breqp":
 		return c14RunReq(f)
 	case "breqraw":
 		return c14RunReqRaw(f[1])
 	case "bresp":
 		return c14RunResp(f[1])
+	case "brespp":
+		return c14RunRespWith(f[1], true, vu.UnX(f[2]))
 	}
 	return "err:badinput"
 }
@@ -1607,8 +1860,14 @@ func c14GenCases(r *vu.RNG, n int, emit func(string)) {
 			v1 := c14Gen(r, hs, 8)
 			emit("hashmut " + v1.String() + " " + c14MutateHeader(r, hs, v1).String())
 		case k < 9:
-			if r.Chance(1, 3) {
+			if r.Chance(1, 4) {
 				emit("babepre " + c14Gen(r, c14SchemaOf("BabeDigest"), 8).String())
+			} else if r.Chance(1, 4) {
+				if r.Chance(1, 2) {
+					emit("xhdr " + c14Gen(r, c14SchemaOf("PrimHeader"), 8).String())
+				} else {
+					emit("xjust " + c14Gen(r, c14SchemaOf("PrimJustification"), 4).String())
+				}
 			} else if r.Chance(1, 3) {
 				emit(c14GenReq(r))
 			} else if r.Chance(1, 2) {
@@ -1617,7 +1876,11 @@ func c14GenCases(r *vu.RNG, n int, emit func(string)) {
 				emit("breqp" + strings.TrimPrefix(c14GenReq(r), "breq") + " " + vu.X(uint64(r.Intn(24))))
 			}
 		case k < 11:
-			emit("bresp " + c14Gen(r, c14SchemaOf("BlockDataList"), 8).String())
+			if r.Chance(1, 3) {
+				emit("brespp " + c14Gen(r, c14SchemaOf("BlockDataList"), 8).String() + " " + vu.X(uint64(r.Intn(1<<30))))
+			} else {
+				emit("bresp " + c14Gen(r, c14SchemaOf("BlockDataList"), 8).String())
+			}
 		default:
 			t := c14Types[r.Intn(len(c14Types))]
 			budget := 16
